@@ -269,6 +269,13 @@ def check_c06_readers(w, v: View):
         if d['complete'] != exp_complete or d['n_jobs'] != len(mine) or d['n_completed'] != sum(j['state'] in TERMINAL for j in mine):
             out.append(('reader-reports-wrong-completion', f'group {gid}: reported complete={d["complete"]} n_jobs={d["n_jobs"]} '
                         f'n_completed={d["n_completed"]}; jobs={jobs_brief(v)}'))
+        exp_counts = {'n_succeeded': sum(j['state'] == 'Success' for j in mine), 'n_failed': sum(j['state'] in ('Failed', 'Error') for j in mine),
+                      'n_cancelled': sum(j['state'] == 'Cancelled' for j in mine)}
+        got = {k: d[k] for k in exp_counts if k in d}
+        bad = {k: (got[k], exp_counts[k]) for k in got if got[k] != exp_counts[k]}
+        if bad:
+            out.append(('reader-reports-wrong-count:' + ','.join(sorted(bad)),
+                        f'group {gid}: report (reported, counted from the jobs) = {bad}; jobs={jobs_brief(v)} cancelled_groups={sorted(v.cancelled_groups)}'))
     return out
 
 
